@@ -1,5 +1,6 @@
 (* Corr/C12.v -- correspondence interface for C12 (graph / sphere / ellipsoid validators). *)
 From Geff Require Export Base GraphVal.
+From Geff Require Export DataVal.   (* the five-flag model of validate_data (IData5) *)
 Open Scope list_scope.
 
 Inductive input :=
@@ -7,12 +8,16 @@ Inductive input :=
 | INodesForEdges (ids : list Z) (edges : list edge)
 | ISelf (edges : list edge)
 | IRepeated (edges : list edge)
-| IData (cfg : vconfig) (d : vdata).
+| IData (cfg : vconfig) (d : vdata)
+(* the whole of validate_data: five flags, masks, lookups (DataVal.v) *)
+| IData5 (cfg5 : vconfig5) (d5 : vdata5).
 
 Inductive obs :=
 | OZs (ok : bool) (bad : list Z)
 | OEs (ok : bool) (bad : list edge)
-| ORes (r : res unit).
+| ORes (r : res unit)
+(* outcome of validate_data AND which raise statement fired (message prefix), so that the order of the checks is tied *)
+| OData5 (r : res unit) (f : option fault).
 
 Definition model (i : input) : obs :=
   match i with
@@ -21,6 +26,7 @@ Definition model (i : input) : obs :=
   | ISelf edges => let r := validate_no_self_edges edges in OZs (fst r) (snd r)
   | IRepeated edges => let r := validate_no_repeated_edges edges in OEs (fst r) (snd r)
   | IData cfg d => ORes (validate_data cfg d)
+  | IData5 cfg d => OData5 (validate_data5 cfg d) (data_fault cfg d)
   end.
 
 Definition obs_eqb (a b : obs) : bool :=
@@ -28,6 +34,7 @@ Definition obs_eqb (a b : obs) : bool :=
   | OZs x l, OZs y m => Bool.eqb x y && zlist_eqb l m
   | OEs x l, OEs y m => Bool.eqb x y && list_eqb pair_eqb l m
   | ORes x, ORes y => res_eqb (fun _ _ => true) x y
+  | OData5 x f, OData5 y g => res_eqb (fun _ _ => true) x y && option_eqb fault_eqb f g
   | _, _ => false
   end.
 
